@@ -95,3 +95,87 @@ def edit_model(run, prop):
         run.extra["model_level_counterexamples"] = sorted(mfs)
         if unrep:
             raise vk.Infra("model-level counterexample(s) not reproduced on the real code (the model is wrong, not the code): %s" % unrep)
+
+
+# ------------------------------------------------------------------------------------------------
+# Computing entry points: CalcModel.tla
+
+CALC_MODEL = {
+    # prop: quick [(ntaxa, maxtrees, pattern)], thorough [...]
+    "C08": ([(4, 1, 1), (5, 1, 1)], [(4, 1, 1), (4, 1, 8), (5, 1, 1), (5, 1, 8)]),
+    "C09": ([(4, 3, 1)], [(4, 3, 1), (4, 3, 8), (5, 2, 1)]),
+    "C10": ([(4, 2, 1)], [(4, 2, 1), (4, 3, 1), (5, 1, 1)]),
+    "C14": ([(4, 0, 1), (4, 0, 6), (4, 0, 8), (5, 0, 1)], [(4, 0, 1), (4, 0, 2), (4, 0, 4), (4, 0, 6), (4, 0, 7), (4, 0, 8), (5, 0, 1), (5, 0, 6), (5, 0, 8), (6, 0, 1)]),
+}
+
+CALC_MODEL_CFG = """SPECIFICATION Spec
+CONSTANTS
+  Family = "%s"
+  NTaxa = %d
+  MaxTrees = %d
+  Pat = %d
+  Emit = TRUE
+INVARIANTS TableIsFrequency SelectionIsThreshold FrequentSplitsFormATree SupportsAreDefinitions CompareIsSetDifference ClustersPartitionTheTips EmitCase
+VIEW StateView
+CHECK_DEADLOCK FALSE
+"""
+
+
+def replay_cases(run, prop, cases_path, ncases, driver, spec, cfg, per_shard=50):
+    """Replays TLC-emitted cases on the real code (sharded) and validates the recordings with a trace spec."""
+    import pipelines
+    shards = min(vk.NCPU, max(1, ncases // per_shard))
+
+    def job(i):
+        def f():
+            path = os.path.join(run.work, "replay-%s-%d.ndjson" % (prop, i))
+            s = vk.run_driver(run, [driver, "--prop", prop, "--cases", cases_path, "--shard", str(i),
+                                    "--nshards", str(shards), "--out", path], path)
+            r = vk.validate_trace(run, path, spec, cfg)
+            r["summary"] = s
+            return r
+        return f
+    res = vk.parallel([job(i) for i in range(shards)])
+    pipelines.collect(run, res)
+    replayed = 0
+    kinds = run.extra.setdefault("calls_executed_on_real_code", {})
+    for r in res:
+        replayed += r["summary"].get("events", 0)
+        for k, v in r["summary"].get("kinds", {}).items():
+            kinds[k] = kinds.get(k, 0) + v
+    run.extra["model_cases_replayed_calls"] = run.extra.get("model_cases_replayed_calls", 0) + replayed
+    run.traces += replayed
+    if res:
+        run.samples += vk.sample_events(res[0]["path"], 1)
+    return res
+
+
+def emit_cases(run, prop, outs, name="cases"):
+    cases_path = os.path.join(run.work, "%s-%s.ndjson" % (name, prop))
+    n = 0
+    seen = set()
+    with open(cases_path, "w") as cf:
+        for out in outs:
+            for c in vk.printed_json(out, "CASE"):
+                if c in seen:
+                    continue
+                seen.add(c)
+                cf.write(c + "\n")
+                n += 1
+    if n == 0:
+        raise vk.Infra("the model emitted no case (vacuous model run)")
+    run.extra["model_cases_emitted"] = run.extra.get("model_cases_emitted", 0) + n
+    return cases_path, n
+
+
+def calc_model(run, prop):
+    import pipelines
+    quick, thorough = CALC_MODEL[prop]
+    bounds = quick if run.tier == "quick" else thorough
+    outs = []
+    for bi, (nt, mt, pat) in enumerate(bounds):
+        cfg = CALC_MODEL_CFG % (prop, nt, mt, pat)
+        outs.append(vk.run_model(run, "CalcModel-%s-%d" % (prop, bi), "CalcModel.tla", cfg, workers=vk.NCPU, heap="8g"))
+    run.extra["model_bounds"] = [dict(ntaxa=b[0], maxtrees=b[1], pattern=b[2]) for b in bounds]
+    cases_path, n = emit_cases(run, prop, outs)
+    replay_cases(run, prop, cases_path, n, "replay-calc", "TraceCalc.tla", pipelines.CALC_CFG % ('"%s"' % prop))
